@@ -15,7 +15,46 @@ use proc_macro2::{Delimiter, TokenStream, TokenTree};
 use quote::ToTokens;
 use std::path::Path;
 
-pub const TARGETS: &[Target] = &[("bindings", "Bindings", bindings as Gen)];
+pub const TARGETS: &[Target] = &[
+    ("bindings", "Bindings", bindings as Gen),
+    ("c17views", "C17Views", c17views as Gen),
+];
+
+/// `c17views` → `RotoV/Generated/C17Views.lean`: the bodies of the byte / char / line view
+/// methods of `src/value/string.rs` as Lean DEFINITIONS (not token text), transliterated by
+/// the statement translator C10 wrote for the same methods (`c10::c10builtins`: `?` on
+/// options, `checked_sub`, iterator `nth`, the skip/take loops, `&s[a..b]` with its panic
+/// explicit; `if let` and `match` on an option give the same Lean `match`).  Only the
+/// string.rs part of that output is kept, under its own module name, so that C17 builds and
+/// reads its own generated module.  `Props/C17.lean` proves the documented meaning over these
+/// definitions (`gen_chars_*`), so a changed arm or offset changes the definition the
+/// theorem is about, and a behaviour-preserving rewrite inside the translator's subset does
+/// not disturb it.
+fn c17views(repo: &Path) -> Result<String, String> {
+    let all = super::c10::c10builtins(repo)?;
+    let cut = all
+        .find("def RawList_offset_of")
+        .ok_or("c17views: end of the string.rs part (`def RawList_offset_of`) not found in the C10 transliteration")?;
+    let mut out = all[..cut].replace("C10Builtins", "C17Views");
+    // ... and the nine closures of basic.rs that bind the views (u64 arguments converted with
+    // `try_into().ok()?`, then the string.rs method): the script-visible built-ins
+    let b0 = all.find("def bind_StringBytes_len").ok_or("c17views: `def bind_StringBytes_len` not found in the C10 transliteration")?;
+    let b1 = all.find("def bind_RotoString_repeat").ok_or("c17views: `def bind_RotoString_repeat` not found in the C10 transliteration")?;
+    if b1 < b0 || b0 < cut {
+        return Err("c17views: unexpected order of the view bindings in the C10 transliteration".into());
+    }
+    out.push_str(&all[b0..b1]);
+    for f in ["StringBytes_len", "StringBytes_get", "StringBytes_slice", "StringChars_len", "StringChars_get",
+        "StringChars_slice", "StringLines_len", "StringLines_get", "StringLines_slice", "bind_StringBytes_get",
+        "bind_StringBytes_slice", "bind_StringChars_get", "bind_StringChars_slice", "bind_StringLines_get",
+        "bind_StringLines_slice"] {
+        if !out.contains(&format!("def {f} ")) {
+            return Err(format!("c17views: definition `{f}` missing from the transliteration"));
+        }
+    }
+    out.push_str("end RotoV.Gen.C17Views\n");
+    Ok(out)
+}
 
 const BASIC: &str = "src/runtime/basic.rs";
 const STRING: &str = "src/value/string.rs";
